@@ -123,6 +123,29 @@ TRAVERSERS = {
 }
 
 
+SWEEPSHAPES = {
+    "bytes": "(to-bytes (string:repeat \"a\" n))",
+    "string": "(string:repeat \"b\" n)",
+    "list": "(make-sequence 0 n)",
+    "vector": "(map 'vector identity (make-sequence 0 n))",
+    "map": "(foldl (lambda (m i) (assoc m (to-string i) i)) (sorted-map) (make-sequence 0 (mod n 60)))",
+    "bytes-in-map": "(sorted-map \"data\" (to-bytes (string:repeat \"a\" n)) \"n\" n)",
+    "string-in-list": "(list 1 (string:repeat \"c\" n) 2)",
+}
+SWEEPSINKS = {
+    "json-dump-bytes": "(length (json:dump-bytes v))",
+    "json-dump-string": "(length (json:dump-string v))",
+    "json-dump-message": "(json:dump-message v)",
+    "base64-encode": "(if (bytes? v) (base64:encode v) (if (string? v) (base64:encode (to-bytes v)) ()))",
+    "to-string": "(ignore-errors (to-string v))",
+    "format-string": "(length (format-string \"{} {}\" v n))",
+    "concat-string": "(if (string? v) (length (concat 'string v \"x\" v)) ())",
+    "to-bytes": "(if (string? v) (length (to-bytes v)) ())",
+    "json-roundtrip": "(ignore-errors (json:load-string (json:dump-string v)))",
+    "equal": "(equal? v v)",
+}
+
+
 def place(entry, call):
     """the hostile call at an entry point"""
     return {
@@ -141,6 +164,8 @@ def place(entry, call):
 
 
 def render(r):
+    if r["kind"] == "sweep":
+        return "(dotimes (n 1101) (let ((v %s)) %s))\n'swept" % (SWEEPSHAPES[r["shape"]], SWEEPSINKS[r["what"]])
     if r["kind"] == "mutcb":
         return "(set 'hz-v (vector 5 3 8 1 9 2))\n" + place(r["entry"], "(list " + (TRAVERSERS[r["what"]] % MUTATIONS[r["shape"]]) + " (length (format-string \"{}\" hz-v)))")
     if r["kind"] == "vehicle":
@@ -220,7 +245,7 @@ def _run(V, work, tier):
     jobs = []
     for i, r in enumerate(recipes):
         # (the nested-argument recursions are bounded by the frame and nesting limits, not by steps: they get room to reach them)
-        steps = 30000000 if r["what"] in ("rec-nested-args", "rec-nested-let") else 1000000
+        steps = 30000000 if r["what"] in ("rec-nested-args", "rec-nested-let") or r["kind"] == "sweep" else 1000000
         jobs.append((r, {"id": i, "src": render(r), "maxsteps": steps, "deadline_ms": DEADLINE, "wedge_ms": 60000}))
     with concurrent.futures.ThreadPoolExecutor(max_workers=14) as ex:
         results = list(ex.map(lambda j: hostile_one(binary, j[1]), jobs))
